@@ -35,6 +35,9 @@ def kinds_1d(rng, n):
         ('column', x, y.reshape(-1, 1), None),
         ('row', x, y.reshape(1, -1), None),
         ('out-float32', x, y, np.float32),
+        # noise-free data reach degenerate branches (empty / full masks, zero residuals); only the shape clauses apply to them
+        ('smooth', x, 2 + 0.03 * x + 0.01 * np.cos(np.arange(n)), None),
+        ('constant', x, np.full(n, 3.0), None),
     ]
     p = np.roll(np.arange(n), n // 3)
     out.append(('unsorted', x[p], y[p], None))
@@ -50,6 +53,7 @@ def kinds_2d(rng, m, n):
         ('float32', x, z, Y.astype(np.float32), None), ('int64', x, z, Yi.astype(np.int64), None),
         ('stack', x, z, Y.reshape(m, n, 1), None), ('out-float32', x, z, Y, np.float32),
         ('unsorted', x[px], z[pz], Y[px][:, pz], None),
+        ('smooth', x, z, 2 + 0.03 * x[:, None] + 0.01 * z[None, :] + 0.01 * np.cos(np.arange(m * n)).reshape(m, n), None),
     ]
 
 
